@@ -19,7 +19,8 @@ THEOREMS = ['WV.C05.corr_convT_adjoint', 'WV.C05.afb_zero_adjoint_one', 'WV.C05.
             'WV.C05V.crop_adjoint1', 'WV.C05V.loop_adjoint', 'WV.C05V.levelAdjS_zero', 'WV.C05V.levelAdjS_per', 'WV.C05V.DWT1DInverse_zero_adjoint', 'WV.C05V.DWT1DInverse_per_adjoint',
             'WV.C05W.AFB1D_forward_channels', 'WV.C05W.AFB1D_backward_channels', 'WV.C05W.AFB1D_adjoint_channels', 'WV.C05W.AFB1D_zero_adjoint_channels', 'WV.C05W.AFB1D_per_adjoint_channels',
             'WV.C05W.SFB1D_forward_channels', 'WV.C05W.SFB1D_adjoint_channels', 'WV.C05W.SFB1D_zero_adjoint_channels', 'WV.C05W.SFB1D_per_adjoint_channels',
-            'WV.C05W.AFB1D_adjoint_channels_shapes', 'WV.C05W.loop_adjoint_channels', 'WV.C05W.DWT1D_zero_adjoint_channels', 'WV.C05W.DWT1D_per_adjoint_channels', 'WV.C10Z.module_glue_gen']
+            'WV.C05W.AFB1D_adjoint_channels_shapes', 'WV.C05W.loop_adjoint_channels', 'WV.C05W.DWT1D_zero_adjoint_channels', 'WV.C05W.DWT1D_per_adjoint_channels',
+            'WV.C05X.SFB1D_adjoint_channels_shapes', 'WV.C05X.loop_adjoint_channels', 'WV.C05X.DWT1DInverse_zero_adjoint_channels', 'WV.C05X.DWT1DInverse_per_adjoint_channels', 'WV.C10Z.module_glue_gen']
 OPS = ['AFB1D_bwd', 'AFB2D_bwd', 'SFB1D_bwd', 'SFB2D_bwd', 'AFB1D_fwd', 'SFB1D_fwd']
 KF_AFB = 'C05-afb-backward-padded-modes'
 KF_SFB = 'C05-sfb-backward-padded-modes'
